@@ -29,6 +29,21 @@ PROPS = {
         "quick": {"stages": [st("^TestStore", 3000)]},
         "thorough": {"stages": [st("^TestStore", 12000, shards=16, timeout=1800)]},
     },
+    "C17": {
+        "pkg": "handlers", "level": "exploration",
+        "quick": {"stages": [st("^TestC17", 4000)]},
+        "thorough": {"stages": [st("^TestC17", 40000, shards=16)]},
+    },
+    "C18": {
+        "pkg": "handlers", "level": "exploration",
+        "quick": {"stages": [st("^TestC18", 3000)]},
+        "thorough": {"stages": [st("^TestC18", 30000, shards=12), st("^TestC18", 4000, shards=4, race=True)]},
+    },
+    "C19": {
+        "pkg": "handlers", "level": "exploration",
+        "quick": {"stages": [st("^TestC19", 1500)]},
+        "thorough": {"stages": [st("^TestC19", 12000, shards=12), st("^TestC19", 2000, shards=4, race=True)]},
+    },
     "C10": {
         "pkg": "core", "level": "exploration",
         "quick": {"stages": [st("^TestC10", 15000)]},
